@@ -22,8 +22,8 @@ RULE = ('alphabet: ~45 operations exercising every cache-backed facility at low/
         'other values within 2^(12-p) relative, structural probes (LU residual at the current precision, memoized value accuracy, '
         'containment) must hold.  non-trivial = history that changed the state fingerprint; distinct histories by construction')
 ASSUMPTIONS = ['a child forked before any evaluation has pristine caches', 'probe order is fixed, so history+probe-prefix is itself a history over the alphabet']
-BOUNDS = {'quick': 'all depth-1 and depth-2 histories over 46 operations (2162) + aborted variants (<=25 classes per operation) as depth-1 histories',
-          'thorough': 'adds depth 3 over a 14-operation core alphabet and <=200 fault classes per operation'}
+BOUNDS = {'quick': 'all depth-1 histories (46), all depth-2 histories over the 14-operation core alphabet (196) + seed-rotated extras, aborted variants (<=6 classes per operation)',
+          'thorough': 'all depth-2 histories over 46 operations (2116), depth 3 over the core alphabet (2744), <=200 fault classes per operation'}
 
 
 # ------------------------------------------------------------------ environment built inside each child
@@ -220,13 +220,19 @@ def tasks(tier, seed):
     th = tier == 'thorough'
     names = sorted(OPS)
     out = [('baseline',)]
-    # depth 1 and 2
-    hists = [[a] for a in names] + [[a, b] for a in names for b in names]
-    nch = 64
+    # fork-per-history costs ~90 ms of serialized kernel time in this sandbox (measured: no speed-up from parallel forks), so the quick
+    # tier enumerates all depth-1 histories, all depth-2 histories over the core alphabet and <= 6 fault classes per operation;
+    # thorough enumerates all depth-2 histories over the full alphabet, depth 3 over the core alphabet and <= 200 classes
+    if th:
+        hists = [[a] for a in names] + [[a, b] for a in names for b in names]
+    else:
+        rot = names[seed % 7::7]                      # seed-rotated extra first operations, always in addition to the fixed core
+        hists = [[a] for a in names] + [[a, b] for a in CORE for b in CORE] + [[a, b] for a in rot for b in CORE[::3]]
+    nch = 32
     for c in range(nch):
         out.append(('hist', hists[c::nch]))
     for n in names:
-        out.append(('faults', n, 200 if th else 25))
+        out.append(('faults', n, 200 if th else 6))
     if th:
         h3 = [[a, b, c] for a in CORE for b in CORE for c in CORE]
         for c in range(64):
@@ -238,6 +244,7 @@ _BASE = {}
 
 
 def baseline():
+    import mpmath          # imported in the parent so that children fork with the library loaded but nothing evaluated
     if 'obs' not in _BASE:
         r = histmc.fork_run(child_history, [])
         if r and r[0] == '__error__':
